@@ -60,7 +60,7 @@ pub open spec fn bops_of(infos: Seq<StoreInfo>) -> Seq<BOp> { infos.map_values(|
 
 impl Storage {
     /*@ fn src/storage/mod.rs Storage::flush_infos ; noisolation
-    tags: C10 C02
+    tags: C10 C02 C01
     result: r
     requires:
         old(self).ok(), forall|i: int| 0 <= i < infos@.len() ==> flushable(#[trigger] infos@[i]),
